@@ -13,7 +13,7 @@ from ..flow import Flow
 COL = "typhon/collocations/collocator.py"
 COM = "typhon/collocations/common.py"
 UTL = "typhon/utils/common.py"
-EXPECT = {"C13.compact": 5, "C13.rows": 2, "C13.binner": 6, "C13.collapsers": 4, "C13.expand": 2, "C13.groups": 4, "C13.concat": 5}
+EXPECT = {"C13.compact": 5, "C13.rows": 2, "C13.binner": 6, "C13.collapsers": 4, "C13.expand": 2, "C13.groups": 4, "C13.concat": 5, "C13.pure": 3}
 
 
 def _assigns(flow):
@@ -92,7 +92,13 @@ def rule_compact(ctx):
                 sel = (st, norm(st.targets[0].slice), norm(c.func.value), kw["collocation"])
                 break
     oks = sel is not None and sel[3] == u and sel[2] == dsv and sel[1] in ("%s[%s]" % (names, i), "name")
-    ctx.ob("_create_return.selection", oks, "output[%s] = %s.isel(collocation=%s)" % (sel[1:] if sel else (None, None, None)),
+    # at the store into the inverse map and at the selection, the unique array is THE array computed above (not re-bound on some path)
+    for use in [x for x in (store, sel[0] if sel else None) if x is not None]:
+        if flow.defs(u, use) != [U[1]]:
+            oks = False
+            redef = [norm(d)[:60] for d in flow.defs(u, use) if d is not U[1] and not isinstance(d, str)]
+    ctx.ob("_create_return.selection", oks, ("output[%s] = %s.isel(collocation=%s)" % (sel[1:] if sel else (None, None, None))) +
+           ((" [%s re-bound on some path: %s]" % (u, locals().get("redef"))) if locals().get("redef") else ""),
            "output[names[i]] = dataset_i.isel(collocation=<the same unique array>)", node=sel[0] if sel else lp, func=f)
 
 
@@ -146,7 +152,10 @@ def rule_binner(ctx):
     # rows_in_bins computed from the reference row on every path
     rdefs = [st for st in flow.stmts if isinstance(st, ast.Assign) and isinstance(st.targets[0], ast.Name) and calls_in(st.value, ("_rows_for_secondaries", "_rows_for_secondaries_numba"))]
     rname = rdefs[0].targets[0].id if rdefs else None
-    bad = [norm(st) for st in rdefs if [norm(a) for a in st.value.args] != [prim]]
+    # every definition of that name counts (a vectorised "equivalent" is only equivalent for sorted reference indices)
+    rdefs = [st for st in flow.stmts if isinstance(st, ast.Assign) and isinstance(st.targets[0], ast.Name) and st.targets[0].id == rname]
+    bad = [norm(st)[:90] for st in rdefs if not (isinstance(st.value, ast.Call) and (dotted(st.value.func) or "").split(".")[-1] in ("_rows_for_secondaries", "_rows_for_secondaries_numba")
+                                                and [norm(a) for a in st.value.args] == [prim])]
     ctx.ob("collapse.rows_in_bins", bool(rdefs) and not bad, "%d definitions; not from the reference row: %s" % (len(rdefs), bad or "none"),
            "rows_in_bins = _rows_for_secondaries(<reference row>) on every path (python and numba variant)", node=rdefs[0] if rdefs else f.node, func=f)
     # binner dims
@@ -347,3 +356,6 @@ def rule_concat(ctx):
 def run(ctx):
     for r in (rule_compact, rule_rows, rule_binner, rule_collapsers, rule_expand, rule_groups, rule_concat):
         ctx.attempt(r, ctx)
+    from ..purity import rule_pure
+    ctx.attempt(rule_pure, ctx, "C13.pure", [(COL, "concat_collocations"), (COM, "collapse"), (COM, "expand")],
+                "concat / collapse / expand leave the datasets they were given unchanged (pair indices are shifted on a copy)")
